@@ -231,6 +231,7 @@ fn generate_with_timeout(chk: &dyn Check, rs: u64, i: u64, tier: Tier) -> Case {
     let (tx, rx) = std::sync::mpsc::channel();
     std::thread::scope(|s| {
         let h = s.spawn(move || {
+            crate::stack::install_thread();
             let _ = tx.send(chk.generate(rs, i, tier));
         });
         match rx.recv_timeout(std::time::Duration::from_secs(30)) {
@@ -311,6 +312,7 @@ pub fn run_check(chk: &dyn Check, cfg: &RunConfig) -> i32 {
         // a run that never returns (the code under test blocks or spins forever) must not
         // hang the check: the watchdog reports it and ends the process
         s.spawn(move || loop {
+            crate::stack::install_thread();
             if workers_done.load(Ordering::SeqCst) >= jobs as u64 {
                 break;
             }
